@@ -227,6 +227,11 @@ func genS(prop string) func(r *sim.Rng, tier string) any {
 				// orphaned identity, or the listing before it
 				p.Faults = append(p.Faults, refagent.PeerFault{At: -1, OnKind: pick(r, []string{"remove", "remove", "remove", "list"}), Nth: r.Intn(3),
 					Fault: pick(r, []string{refagent.FaultFail, refagent.FaultFail, refagent.FaultGarbage, refagent.FaultEmpty})})
+				if r.Bool(0.3) {
+					// an underlying agent that does not implement removal at all (token-backed agents): every
+					// remove request is refused, from the first one on
+					p.Faults[len(p.Faults)-1] = refagent.PeerFault{At: -1, OnKind: "remove", Nth: 0, Fault: refagent.FaultFailKind}
+				}
 			} else if prop == "C08" {
 				// refusals and connection errors on lock / unlock
 				p.Faults = append(p.Faults, refagent.PeerFault{At: -1, OnKind: pick(r, []string{"lock", "unlock"}), Nth: r.Intn(2),
